@@ -18,6 +18,11 @@ CONSTANTS NPkts,         \* packets the sender emits
           Budget,        \* adversary actions
           Class,         \* "EandM" | "ETM" | "GCM" | "CHACHA"
           ParseAfterError, \* TRUE: sensitivity variant (input is still parsed after a fatal error)
+          Strict,         \* strict key exchange ("kex-strict-*-v00@openssh.com"), which both ends of an
+                          \* asyncssh connection negotiate: "on" (as coded): anything in front of the
+                          \* first KEXINIT ends the connection, sequence numbers restart at NEWKEYS;
+                          \* "silently_off": sensitivity variant - a packet in front of KEXINIT merely
+                          \* switches strict mode off (the Terrapin prefix truncation becomes possible)
           EofIsClean      \* TRUE: sensitivity variant (end of stream without DISCONNECT = orderly close)
 
 Regions == {"len", "body", "pad", "tag"}
@@ -28,17 +33,18 @@ VARIABLES
     rseq,       \* receiver's next sequence number / invocation counter
     rstate,     \* "ok" | "err" | "stall" | "clean" (orderly end reported to the application)
     fin,        \* the adversary ended the stream (FIN) behind what is left on the wire
+    pre,        \* the adversary put an unauthenticated packet in front of the first KEXINIT
     delivered,  \* ids handed to the dispatcher
     touched,    \* smallest packet id the adversary has interfered at or before (0 = none)
     nadv,
     adv,        \* history of adversary actions
     lbl
 
-vars == <<emitted, wire, rseq, rstate, fin, delivered, touched, nadv, adv, lbl>>
-view == <<emitted, wire, rseq, rstate, fin, delivered, touched, nadv>>
-viewA == <<emitted, wire, rseq, rstate, fin, delivered, touched, nadv, adv>>
+vars == <<emitted, wire, rseq, rstate, fin, pre, delivered, touched, nadv, adv, lbl>>
+view == <<emitted, wire, rseq, rstate, fin, pre, delivered, touched, nadv>>
+viewA == <<emitted, wire, rseq, rstate, fin, pre, delivered, touched, nadv, adv>>
 
-Init == /\ emitted = 0 /\ wire = <<>> /\ rseq = 0 /\ rstate = "ok" /\ fin = FALSE
+Init == /\ emitted = 0 /\ wire = <<>> /\ rseq = 0 /\ rstate = "ok" /\ fin = FALSE /\ pre = FALSE
         /\ delivered = <<>> /\ touched = 0 /\ nadv = 0 /\ adv = <<>>
         /\ lbl = <<"init">>
 
@@ -50,7 +56,7 @@ Emit ==
                ELSE Append(wire, [id |-> emitted + 1, seq |-> emitted, taint |-> "none",
                                   kind |-> "genuine"])
     /\ lbl' = <<"emit">>
-    /\ UNCHANGED <<rseq, rstate, fin, delivered, touched, nadv, adv>>
+    /\ UNCHANGED <<rseq, rstate, fin, pre, delivered, touched, nadv, adv>>
 
 Touch(id) == IF touched = 0 \/ id < touched THEN id ELSE touched
 \* the packet id at wire position i (for forged / foreign packets: the id of
@@ -65,7 +71,22 @@ AdvStep(name, args, w, id) ==
     /\ adv' = Append(adv, <<name, id>> \o args)
     /\ lbl' = <<"adv", name, id>> \o args
     /\ fin' = (name = "fin")
-    /\ UNCHANGED <<emitted, rseq, rstate, delivered>>
+    /\ UNCHANGED <<emitted, rseq, rstate, delivered, pre>>
+
+\* before any key is in effect nothing is authenticated: an IGNORE message put in front of the
+\* first KEXINIT is accepted as such and moves the receiver's sequence number by one.  Strict
+\* key exchange exists to make that harmless: the connection ends when the KEXINIT arrives
+\* (it was not the first packet).
+PreInsert ==
+    /\ nadv < Budget /\ rstate = "ok" /\ ~fin /\ ~pre /\ emitted = 0 /\ delivered = <<>>
+    /\ pre' = TRUE
+    /\ IF Strict = "on"
+       THEN rstate' = "err" /\ UNCHANGED rseq
+       ELSE rseq' = rseq + 1 /\ UNCHANGED rstate       \* counted, and never reset
+    /\ nadv' = nadv + 1 /\ touched' = Touch(1)
+    /\ adv' = Append(adv, <<"preins", 0>>)
+    /\ lbl' = <<"adv", "preins", 0>>
+    /\ UNCHANGED <<emitted, wire, fin, delivered>>
 
 Flip(i, region) ==
     /\ i \in 1..Len(wire) /\ wire[i].taint = "none"
@@ -112,7 +133,7 @@ Recv ==
     /\ wire # <<>> /\ (rstate = "ok" \/ (ParseAfterError /\ rstate = "err"))
     /\ LET p == Head(wire) IN
        /\ lbl' = <<"recv", p.id, p.kind, p.taint>>
-       /\ UNCHANGED <<emitted, fin, touched, nadv, adv>>
+       /\ UNCHANGED <<emitted, fin, pre, touched, nadv, adv>>
        /\ IF Authentic(p)
           THEN /\ delivered' = Append(delivered, p.id)
                /\ rseq' = rseq + 1
@@ -133,9 +154,9 @@ RecvEOF ==
     /\ fin /\ wire = <<>> /\ rstate \in {"ok", "stall"}     \* "stall": part of a packet is pending
     /\ rstate' = IF EofIsClean /\ rstate = "ok" THEN "clean" ELSE "err"
     /\ lbl' = <<"recveof">>
-    /\ UNCHANGED <<emitted, wire, rseq, fin, delivered, touched, nadv, adv>>
+    /\ UNCHANGED <<emitted, wire, rseq, fin, pre, delivered, touched, nadv, adv>>
 
-Next == Emit \/ Recv \/ RecvEOF
+Next == Emit \/ Recv \/ RecvEOF \/ PreInsert
         \/ \E i \in 1..(NPkts + 2) :
               \/ \E r \in Regions : Flip(i, r)
               \/ Truncate(i) \/ Drop(i) \/ Fin(i) \/ Dup(i) \/ Swap(i)
